@@ -353,6 +353,117 @@ fn exec<K: Key + 'static, V: Value + 'static>(
     }
 }
 
+// ------------------------------------------------------------------------------------------------ shape mode (S2)
+// Runs a shape program under its own page size and prints, after the opening of every transaction and
+// after EVERY operation, the real tree (Table::verif_shape, uncommitted pages included).
+
+fn emit_shape(out: &mut String, sh: &redb::verif::VShape, verbose: bool) {
+    let t = shape_line(sh);
+    if verbose {
+        writeln!(out, "{t}").unwrap();
+    } else {
+        // length + FNV-1a digest of the canonical text (the full text is printed in verbose mode: replay / diagnosis)
+        let mut h: u64 = 0xcbf29ce484222325;
+        for x in t.as_bytes() { h = (h ^ (*x as u64)).wrapping_mul(0x100000001b3); }
+        writeln!(out, "S {} #{}:{:016x}", sh.length, t.len(), h).unwrap();
+    }
+}
+
+fn exec_shape<K: Key + 'static, V: Value + 'static>(prog: &Program, reserve: Option<Reserve<K, V>>, out: &mut String, max_depth: &mut u32, verbose: bool) {
+    let def: TableDefinition<K, V> = TableDefinition::new("t");
+    let backend = RecBackend::new();
+    backend.0.lock().unwrap().record = false;
+    let mut builder = Builder::new();
+    builder.verif_set_page_size(prog.page);
+    writeln!(out, "C {}", prog.id).unwrap();
+    let db = builder.create_with_backend(backend.handle()).unwrap();
+    for txn in &prog.txns {
+        let w = db.begin_write().unwrap();
+        {
+            let mut t = w.open_table(def).unwrap();
+            writeln!(out, "B").unwrap();
+            emit_shape(out, &t.verif_shape().unwrap(), verbose);
+            for op in &txn.ops {
+                exec_op::<K, V>(&mut t, op, prog.kt, reserve, out);
+                let sh = t.verif_shape().unwrap();
+                for n in &sh.nodes { *max_depth = (*max_depth).max(n.depth); }
+                emit_shape(out, &sh, verbose);
+            }
+        }
+        match txn.end {
+            End::Commit => { w.commit().unwrap(); writeln!(out, "K").unwrap(); }
+            End::Abort => { w.abort().unwrap(); writeln!(out, "A").unwrap(); }
+        }
+    }
+}
+
+fn run_shape_prog(prog: &Program, max_depth: &mut u32, verbose: bool) -> String {
+    let mut out = String::new();
+    let r = catch(|| match (prog.kt, prog.vt) {
+        (KType::Bytes, VType::Bytes) => exec_shape::<&[u8], &[u8]>(prog, Some(reserve_bytes::<&[u8]>), &mut out, max_depth, verbose),
+        (KType::U64, VType::Bytes) => exec_shape::<u64, &[u8]>(prog, Some(reserve_bytes::<u64>), &mut out, max_depth, verbose),
+        (KType::Str, VType::U64) => exec_shape::<&str, u64>(prog, None, &mut out, max_depth, verbose),
+        (KType::Str, VType::Bytes) => exec_shape::<&str, &[u8]>(prog, Some(reserve_bytes::<&str>), &mut out, max_depth, verbose),
+        (KType::Bytes, VType::U64) => exec_shape::<&[u8], u64>(prog, None, &mut out, max_depth, verbose),
+        (KType::U64, VType::U64) => exec_shape::<u64, u64>(prog, None, &mut out, max_depth, verbose),
+    });
+    if let Err(msg) = r {
+        if !out.starts_with("C ") { out = format!("C {}\n", prog.id); }
+        if !out.ends_with('\n') { out.push('\n'); }
+        out.push_str(&format!("PANIC {}\n", msg.replace('\n', " ")));
+    }
+    out
+}
+
+/// c04 shape <n> [level]  |  c04 shapefile <file>
+fn shape_main(args: &[String]) {
+    use std::io::Write as _;
+    let from_file: Option<Vec<Program>> = if args[1] == "shapefile" {
+        Some(parse_programs(&std::fs::read_to_string(&args[2]).unwrap()))
+    } else {
+        None
+    };
+    let n: u64 = match &from_file { Some(p) => p.len() as u64, None => args.get(2).map(|s| s.parse().unwrap()).unwrap_or(50) };
+    let level: u32 = if from_file.is_some() { 2 } else { args.get(3).map(|s| s.parse().unwrap()).unwrap_or(1) };
+    let verbose = from_file.is_some() || args.iter().any(|a| a == "verbose");
+    let mut r = Rng::new(seed_from_env() ^ 0x5C04);
+    let mut cases_f = std::fs::File::create("shape_cases.txt").unwrap();
+    let mut impl_f = std::fs::File::create("shape_impl.txt").unwrap();
+    let mut progress_f = std::fs::File::create("shape_progress.txt").unwrap();
+    let mut opk: BTreeMap<&'static str, u64> = BTreeMap::new();
+    let mut shapes: BTreeMap<&'static str, u64> = BTreeMap::new();
+    let mut tables: BTreeMap<String, u64> = BTreeMap::new();
+    let mut pages: BTreeMap<usize, u64> = BTreeMap::new();
+    let mut depth_hist: BTreeMap<u32, u64> = BTreeMap::new();
+    let mut total_ops = 0u64;
+    for id in 0..n {
+        let mut pr = r.fork(id);
+        let prog = match &from_file { Some(p) => p[id as usize].clone(), None => gen_shape_program(&mut pr, id, tier_is_thorough(), level) };
+        cases_f.write_all(prog.to_text().as_bytes()).unwrap();
+        cases_f.flush().unwrap();
+        *shapes.entry(prog.shape).or_default() += 1;
+        *tables.entry(format!("{:?},{:?}", prog.kt, prog.vt)).or_default() += 1;
+        *pages.entry(prog.page).or_default() += 1;
+        for t in &prog.txns { for op in &t.ops { *opk.entry(op.kind()).or_default() += 1; total_ops += 1; } }
+        writeln!(progress_f, "RUN {} p{}", prog.id, prog.page).unwrap();
+        progress_f.flush().unwrap();
+        let mut md = 0u32;
+        let o = run_shape_prog(&prog, &mut md, verbose);
+        *depth_hist.entry(md).or_default() += 1;
+        impl_f.write_all(o.as_bytes()).unwrap();
+    }
+    writeln!(progress_f, "DONE").unwrap();
+    let mut st = String::new();
+    writeln!(st, "shape_programs={} shape_ops={}", n, total_ops).unwrap();
+    writeln!(st, "shape_opkinds={}", opk.iter().map(|(k, v)| format!("{k}:{v}")).collect::<Vec<_>>().join(",")).unwrap();
+    writeln!(st, "shape_shapes={}", shapes.iter().map(|(k, v)| format!("{k}:{v}")).collect::<Vec<_>>().join(",")).unwrap();
+    writeln!(st, "shape_tables={}", tables.iter().map(|(k, v)| format!("{k}:{v}")).collect::<Vec<_>>().join(";")).unwrap();
+    writeln!(st, "shape_page_sizes={}", pages.iter().map(|(k, v)| format!("{k}:{v}")).collect::<Vec<_>>().join(",")).unwrap();
+    writeln!(st, "shape_max_depth_of_program={}", depth_hist.iter().map(|(k, v)| format!("{k}:{v}")).collect::<Vec<_>>().join(",")).unwrap();
+    std::fs::write("shape_stats.txt", &st).unwrap();
+    print!("{st}");
+}
+
 fn run_prog(prog: &Program, cfg: &Config, mk: &mut Markers) -> String {
     // the output produced before a panic is kept: the first differing line is then the operation that panicked
     let mut out = String::new();
@@ -375,6 +486,10 @@ fn run_prog(prog: &Program, cfg: &Config, mk: &mut Markers) -> String {
 fn main() {
     silence_panics();
     let args: Vec<String> = std::env::args().collect();
+    if matches!(args.get(1).map(|s| s.as_str()), Some("shape") | Some("shapefile")) {
+        shape_main(&args);
+        return;
+    }
     // file mode: c04 file <cases file>  -- run the given programs under EVERY configuration
     let from_file: Option<Vec<Program>> = if args.get(1).map(|s| s.as_str()) == Some("file") {
         Some(parse_programs(&std::fs::read_to_string(&args[2]).unwrap()))
